@@ -23,7 +23,7 @@ ASSUMPTIONS = ['floats as reals', 'L5 (a functional with zero Lie derivative is 
                'tau, gamma > 0; 0 < rho < 1', 'the [0,N] range of compartments is NOT claimed (needs model-specific invariants, DESIGN section 8)']
 OPTS = {'quick': {'max_validate': 0, 'cfg_timeout': 200}, 'thorough': {'max_validate': 0, 'cfg_timeout': 900}}
 VALIDATE = False
-MUST_EVALUATE = {'quick': ['accepted', 'times=linspace', 'row0', 'conservation', 'sir-monotone', 'full-data-row0']}
+MUST_EVALUATE = {'quick': ['accepted', 'times=linspace', 'row0', 'conservation', 'sir-monotone', 'full-data-row0', 'rhs-defined-at-X0']}
 
 SIS_GRAPH = ['SIS_homogeneous_meanfield_from_graph', 'SIS_homogeneous_pairwise_from_graph', 'SIS_heterogeneous_meanfield_from_graph',
              'SIS_heterogeneous_pairwise_from_graph', 'SIS_compact_pairwise_from_graph', 'SIS_super_compact_pairwise_from_graph',
@@ -52,8 +52,8 @@ def configs(tier):
     for g in gl:
         n = graphs.ALL[g][0]
         ics = [('rho', None, None), ('sets', [0], []), ('sets', [1], [n - 1])]
-        if tier == 'thorough':
-            ics.append(('sets', [0, 1], [2]))
+        if tier == 'thorough' and n >= 4:
+            ics.append(('sets', [0, 1], [2]))      # (needs a susceptible node left: closures divide by susceptible counts)
         for entry in SIS_GRAPH + SIR_GRAPH + NODE + NODE_PURE + OTHER:
             sir = ('SIR' in entry) or entry.startswith('EBCM')
             for (kind, I0, R0) in ics:
@@ -275,6 +275,18 @@ def _run(h, cfg, eng, EoN, an, flow):
         h.fail('conservation', {'integrator_calls': len(flow.calls)})
         return None
     call = flow.calls[0]
+    # the right-hand side must be defined at the initial state itself (a 0/0 there makes the whole solution NaN)
+    eng.div_guard = True
+    st0, f0 = h.call(call.dfunc, np.array(list(call.X0), dtype=object), 0, *call.args)
+    eng.div_guard = False
+    if st0 == 'exc':
+        h.fail('rhs-defined-at-X0:' + type(f0).__name__, {'exception': repr(f0)[:200], 'X0': show(list(call.X0))[:12]})
+    else:
+        bad0 = [j for j, v in enumerate(list(f0)) if isinstance(v, float) and (v != v or v in (float('inf'), float('-inf')))]
+        if bad0:
+            h.fail('rhs-defined-at-X0', {'nan_or_inf_components': bad0[:6]})
+        else:
+            h.require('rhs-defined-at-X0', True)
     xs = [lift(v) for v in call.out[1]]
     x_assume = [x > 0 for x in xs]      # interior of the region (the boundary follows by continuity of polynomial identities)
     for c_ in x_assume:
@@ -415,6 +427,9 @@ def replay_concrete(cfg, kind, values, decisions):
                 series[c] = tot(slot[nm])
     cs = ['S', 'I'] + (['R'] if sir else [])
     tol = 1e-6 * max(1.0, N)
+    if kind.startswith('rhs-defined-at-X0'):
+        nan = [c for c in cs if np.isnan(series[c]).any() or np.isinf(series[c]).any()]
+        return {'reproduced': bool(nan), 'concrete_detail': {'nan_in': nan, 'S': series['S'].tolist()[:4]}, 'how': 'real code, real integrator'}
     if kind == 'times=linspace':
         bad = not np.allclose(slot['t'], np.linspace(tmin, tmax, 7))
         return {'reproduced': bool(bad), 'concrete_detail': {'t': slot['t'].tolist()}}
